@@ -64,7 +64,7 @@ def build(case):
         return M.enc_mge(pix, pal, case["rgb"], case["comp"], rng, case.get("preset", "random")), [], (320, 200), 0
     if fmt == "rat":
         pix = M.rand_pixels(rng, 320, 199, case.get("content", "runs"))
-        data, esc = M.enc_rat(pix, pal, rng, case.get("preset", "random"))
+        data, esc = M.enc_rat(pix, pal, rng, case.get("preset", "random"), escape=case.get("escape"))
         if case.get("stretch") and len(data) > 22 and data[-3] == esc:
             # the final run is longer than the picture needs (an encoder that rounds its last run up): still a picture
             # of exactly 320x199
@@ -149,7 +149,7 @@ def run_case(case):
     fmt = case["fmt"]
     obs = {"counters": {"decodes": 1}, "viols": [], "sets": {"formats": [fmt]}}
     data, args, size, skip = build(case)
-    obs["key"] = "%s|%s|%s|%s|%s" % (fmt, size, " ".join(args), case.get("content"), str(case.get("preset")) + ("+stretch" if case.get("stretch") else "") + ("+highbits" if case.get("highbits") else ""))
+    obs["key"] = "%s|%s|%s|%s|%s" % (fmt, size, " ".join(args), case.get("content"), str(case.get("preset")) + ("+stretch" if case.get("stretch") else "") + ("+highbits" if case.get("highbits") else "") + ("+esc%d" % case["escape"] if case.get("escape") is not None else ""))
     res = D.decode(fmt, data, args)
     cl = observe.classify(fmt, res)
     detail = {"case": case, "args": args, "input_bytes": len(data), "expected_size": size}
@@ -275,6 +275,10 @@ def cases(tier, seed):
     yield c(fmt="mge", rgb=True, comp=True, highbits=True)
     yield c(fmt="cm3", two=False, pat=True, preset="mixed", highbits=True)
     yield c(fmt="rat", highbits=True)
+    # the escape byte is the encoder's free choice: every value that means something special somewhere (0, line ends, ^Z,
+    # regular-expression characters, the sign bit, 255)
+    for esc in (0, 1, 10, 13, 26, 0x24, 0x2E, 0x5C, 0x7C, 0x7F, 0x80, 0xFF):
+        yield c(fmt="rat", escape=esc, content="runs", preset="random")
     # compressed formats: picture contents that give long / maximal runs at the start, the end and throughout, each with
     # the greedy ("maximal") and a random split of runs
     for content in ("zero", "max", "flatrows", "stripes", "bottomflat", "topflat", "corners", "vrepeat", "random"):
